@@ -3,6 +3,9 @@ CONSTANTS
   Pools = {"p1", "p2"}
   MaxDepth = 3
   MaxOps = 6
+  MaxHandlers = 2
+  PoolOpts <- AllPoolOpts
+  AutoOpts <- AllAutoOpts
 INVARIANT ContextsRestored
 INVARIANT PoolClosedIffAsked
 INVARIANT AllClosedMeansPristine
